@@ -76,6 +76,8 @@ func Generate(family string, idx int, seed int64) *Scenario {
 		genDaemon(r, sc)
 	case "unsat":
 		genUnsat(r, sc)
+	case "regate":
+		genRegate(r, sc)
 	default:
 		genGating(r, sc)
 	}
@@ -643,4 +645,35 @@ func genUnsat(r *rand.Rand, sc *Scenario) {
 	}
 	sc.Cfg.Ordered = chance(r, 30)
 	sc.EndTick = 50 + r.Intn(20)
+}
+
+// genRegate: a chain x <- d <- b (b waits for d, d waits for x) runs to its end once; then the chain is started again
+// through the API from the root, the new instance of x running for a long time: the new instance of d is pending, and a
+// dependent started now has to wait for THAT instance, not for the record the previous run left behind.
+func genRegate(r *rand.Rand, sc *Scenario) {
+	x, d, b := baseProc("x"), baseProc("d"), baseProc("b")
+	sc.Cfg.Procs = append(sc.Cfg.Procs, x, d, b)
+	c1 := pick(r, "process_completed", "process_completed_successfully")
+	c2 := pick(r, "process_completed", "process_completed_successfully")
+	sc.Cfg.Edges = append(sc.Cfg.Edges, Edge{P: "d", K: "x", Cond: c1}, Edge{P: "b", K: "d", Cond: c2})
+	long := pick(r, 25, 40, 60)
+	sc.Scripts["x"] = []fakecmd.Behaviour{autoB(pick(r, 1, 2, 4), 0), autoB(long, 0)}
+	sc.Scripts["d"] = []fakecmd.Behaviour{autoB(pick(r, 1, 2), 0), autoB(pick(r, 1, 3), pick(r, 0, 0, 1))}
+	sc.Scripts["b"] = []fakecmd.Behaviour{autoB(1, 0)}
+	if chance(r, 30) { // an unrelated fourth process keeps the project busy
+		sc.Cfg.Procs = append(sc.Cfg.Procs, baseProc("u"))
+		sc.Scripts["u"] = []fakecmd.Behaviour{autoB(pick(r, 3, 30), 0)}
+	}
+	t := 14 + r.Intn(8)
+	op := func() string { return pick(r, "restart", "start") }
+	sc.Steps = append(sc.Steps, Step{When: When{Tick: t}, Do: Op{Kind: op(), P: "x"}})
+	t += pick(r, 2, 4)
+	sc.Steps = append(sc.Steps, Step{When: When{Tick: t}, Do: Op{Kind: op(), P: "d"}})
+	t += pick(r, 1, 3, 6)
+	sc.Steps = append(sc.Steps, Step{When: When{Tick: t}, Do: Op{Kind: op(), P: "b"}})
+	if chance(r, 30) {
+		sc.Steps = append(sc.Steps, Step{When: When{Tick: t + pick(r, 2, 5)}, Do: Op{Kind: pick(r, "stop", "restart"), P: pick(r, "x", "d")}})
+	}
+	sc.Cfg.Ordered = chance(r, 30)
+	sc.EndTick = t + long + 30
 }
